@@ -1,4 +1,5 @@
 import Bluge.Persist
+import BlugeProofs.C13.Eqns11
 import BlugeProofs.C13
 /-! # C13 ↔ C11: the `lock` bit of the writer-protocol model is the pid-file world of `Bluge.FS.World`
 
